@@ -114,6 +114,11 @@ class UnitResult:
 UNITS = {
     'P': {'crate': 'mpd_protocol', 'root': 'mpd_protocol/src/lib.rs', 'specs': 'contracts/mpd_protocol/*.vspec',
           'externs': ['ahash', 'bytes', 'nom', 'tracing'], 'cfg': ['feature="async"'], 'export': True},
+    # same crate, different lift set: functions whose proofs need closure contracts (call_ensures) cannot be verified while a
+    # trait impl that calls them is lifted (Verus drops closure facts inside such a call-graph component); they are verified
+    # here with their trait-impl callers left outside, and carry the SAME contract as `external_body` in unit P
+    'Pc': {'crate': 'mpd_protocol', 'root': 'mpd_protocol/src/lib.rs', 'specs': 'contracts/mpd_protocol/*.vspec',
+           'externs': ['ahash', 'bytes', 'nom', 'tracing'], 'cfg': ['feature="async"']},
     'C': {'crate': 'mpd_client', 'root': 'mpd_client/src/lib.rs', 'specs': 'contracts/mpd_client/*.vspec',
           'externs': ['bytes', 'tracing'], 'cfg': [], 'needs': ['P']},
 }
@@ -148,7 +153,7 @@ def run_unit(name, scratch, support_dir, tier, seed, rlimit=30, extra_flags=()):
     pre_bad = None
     try:
         # precheck runs on the ORIGINAL sources of the files that will be lifted
-        ur.report = splicer.splice(root, specs, os.path.join(VERIF, 'contracts'))
+        ur.report = splicer.splice(root, specs, os.path.join(VERIF, 'contracts'), name)
     except (splicer.SpliceError, splicer.vspec.VspecError) as e:
         raise Undecided('splice (%s): %s' % (name, e))
     except Exception as e:
